@@ -525,13 +525,13 @@ theorem onTake_inv (st : St) (i : Nat) (s0 : Src) (hs : st.srcs[i]? = some s0) (
       · rename_i hne
         have hne' : s0.eph ≠ 0 := by simpa using hne
         have := takeEph_inv st1 i s0 { s0 with queue := q, conn := true }
-          { mid := w.mid, topic := decodeTopic w.frame0, body := w.body, src := i } w.topics hs1 rfl rfl rfl hne' hS1 hL1
+          { mid := w.mid, topic := effTopic s0.subAll s0.subs (decodeTopic w.frame0), body := w.body, src := i } w.topics hs1 rfl rfl rfl hne' hS1 hL1
         refine ⟨this.1, this.2, ?_⟩
         unfold takeEph; split <;> exact e5
       · rename_i hne
         have hsync : s0.eph = 0 := by simpa using hne
         have := takeSync_inv st1 i s0 { s0 with queue := q, conn := true }
-          { mid := w.mid, topic := decodeTopic w.frame0, body := w.body, src := i } w.topics hs1 rfl rfl rfl hsync hreg
+          { mid := w.mid, topic := effTopic s0.subAll s0.subs (decodeTopic w.frame0), body := w.body, src := i } w.topics hs1 rfl rfl rfl hsync hreg
           (e4 ▸ hin) hS1 hL1 (hwf w q hq)
         refine ⟨this.1, this.2, ?_⟩
         unfold takeSync; split
